@@ -4,7 +4,7 @@
    forward pass driver of _lou_translate with its position-map composition.
    Executable, no proofs.                                                                     *)
 From Coq Require Import List ZArith Bool.
-From Lou Require Import Gen.GConst Gen.GChain Model.Table Model.Ref Model.Compile Model.Engine.
+From Lou Require Import Gen.GConst Gen.GChain Gen.GProgress Model.Table Model.Ref Model.Compile Model.Engine.
 Import ListNotations.
 Local Open Scope Z_scope.
 
@@ -138,6 +138,7 @@ Section Stage.
   Variable cap : Z.
 
   Definition sn := len inp.
+  Definition stage_inc := match kind with KCorrect => fwd_correct_inc | KPass => fwd_pass_inc end.
 
   Fixpoint find_rule (c : list prule) (pos : Z) : option (prule * pmatch) :=
     match c with
@@ -164,7 +165,8 @@ Section Stage.
         match do_action inp cap r m (ps_out s) (ps_pm s) with
         | (out, pm, None) => (mkPS pos out pm (ps_inc s) (p_idx r :: ps_trace s), false)
         | (out, pm, Some newpos) =>
-            (mkPS newpos out pm (negb (newpos =? pos)) (p_idx r :: ps_trace s), true)
+            (* posIncremented after a rule: the expression REGENERATED from makeCorrections / translatePass *)
+            (mkPS newpos out pm (stage_inc newpos pos (len out) (len (ps_out s))) (p_idx r :: ps_trace s), true)
         end
     | None =>
         if len (ps_out s) + 1 >? cap then (s, false)
